@@ -35,7 +35,15 @@ PROP = dict(
              "(gate: the tagged field itself — its constraint is violated by the first result or an operand is not configured yet | an extra field whose key is absent | "
              "a dependency whose Init fails while its upstream is down), app.Set of changed operands (numbers, booleans, strings, the operator) or of a changed "
              "validated value, GetComponentByName(holder): the expression must be evaluated on the CURRENT values and validation must judge the value bound by the "
-             "second creation (a field that still shows the first result: oracle repopulate-stale); 30% of the holders also carry an optional wire dependency (both property groups exist) and are started 4 times, every start must agree (oracle start-unstable); non-trivial = all; distinct = distinct scenario lines",
+             "second creation (a field that still shows the first result: oracle repopulate-stale); "
+             "after these, one further case per twelve is drawn from the same generators (expression cases, expression cases with defaulted operands, value x "
+             "constraint pairs, pointer-to-zero pairs, structs with a nested section) and has its placeholders rewritten to name their keys IN TWO STEPS — "
+             "`#{${ke1_${ks1}} * 100}`, `${kg3-${ks1}},validate=min=3`, `${${ks1}_kr7:5}`, `${ke1:${ks1}}` (default taken from the configuration), "
+             "`${ke1_${ks1-${ks2}}}` (two levels), `prefix:\"kw4_${ks1}\"`; the selector is a short word or a number, configured or absent with a default, in "
+             "front of or behind the fixed part, glued with nothing, `_` or `-`; a sibling key under another selector value holds a different value; computed and "
+             "flat placeholders stand side by side in one expression. Placeholders are substituted inside-out (the harness substitutes from the tag's syntax "
+             "tree): the expression must see, and validation must judge, the SELECTED value (oracles expr-result / validate-iff / bind-direct); "
+             "30% of the holders also carry an optional wire dependency (both property groups exist) and are started 4 times, every start must agree (oracle start-unstable); non-trivial = all; distinct = distinct scenario lines",
         trusted_base=COMMON_TB + ["the go/ast facts translator for Facts.builtinProcessors / orderConsts",
                                   "expr-lang/expr and go-playground/validator themselves (opaque; called directly by the oracle)",
                                   "strconv2 / mapstructure as modelled in Ioc.Value (validated by the correspondence)"],
